@@ -44,6 +44,17 @@ type Sim struct {
 	// MaxSteps caps scheduler steps.  0 means 20000.
 	MaxSteps int
 
+	// QuietOK makes Run return, with Quiet set, as soon as nothing is enabled
+	// and one idle period has passed without any task becoming runnable.
+	QuietOK bool
+
+	// Quiet is set when Run returned because of QuietOK.
+	Quiet bool
+
+	// IdleQuantum is how long the scheduler waits for a task to become
+	// runnable before counting an idle period.  0 means one hour.
+	IdleQuantum time.Duration
+
 	// Dial, if set, serves verifsim.DialTimeout.
 	Dial func(network, addr string, timeout time.Duration) (net.Conn, error)
 
@@ -438,6 +449,8 @@ func (s *Sim) Run() {
 	}
 
 	idle := 0
+	s.Quiet = false
+	s.Stuck = false
 	for {
 		synctest.Wait()
 
@@ -466,6 +479,12 @@ func (s *Sim) Run() {
 				return
 			}
 
+			if s.QuietOK && idle >= 1 {
+				s.Quiet = true
+
+				return
+			}
+
 			if idle >= 3 {
 				s.Stuck = true
 				s.Logf("sched: stuck live=%d parked=%d", live, nParked)
@@ -473,7 +492,11 @@ func (s *Sim) Run() {
 				return
 			}
 
-			tm := time.NewTimer(time.Hour)
+			q := s.IdleQuantum
+			if q == 0 {
+				q = time.Hour
+			}
+			tm := time.NewTimer(q)
 			select {
 			case <-s.wake:
 				idle = 0
